@@ -38,7 +38,7 @@ type resp struct {
 	Confirmations []respItem `json:"confirmations"`
 }
 
-var excesses = []int{0, 1, 6, 100, math.MaxInt32}
+var excesses = []int{0, 1, 6, 100, math.MaxInt32, 1 << 31, 1 << 40}
 
 // buildItems produces the request pool for a model state.
 func buildItems(rng *rand.Rand, m *refmodel.Model, excess int, limit int) []item {
@@ -184,8 +184,8 @@ func (e *env) verifyLists(caseID string, rng *rand.Rand, m *refmodel.Model, hist
 }
 
 func body(r *ev.Run) {
-	r.Rule("states = every reorganisation point (and every 10th step, and the end) of seeded random histories with forks, stale blocks sharing heights with longest blocks, orphans, duplicate merkle roots across branches; per state several request lists (length 1..50, with duplicates) drawn from {every stored (root, own height / height+-1), non-longest roots at the tip height, unknown / tip / genesis roots at heights -1, 0, 1, tip-1..tip+excess+2, MaxInt32, MinInt32} for excess in {0,1,6,100,MaxInt32}; sent through POST /api/v1/chain/merkleroot/verify and Merkleroots.GetMerkleRootsConfirmations. evaluations = request lists; distinct = distinct (item class, expected verdict) pairs observed; non-trivial = all.")
-	r.Assume("merkle roots compared in canonical lower-case hex", "excess values up to MaxInt32", "reference model transcribes the statement")
+	r.Rule("states = every reorganisation point (and every 10th step, and the end) of seeded random histories with forks, stale blocks sharing heights with longest blocks, orphans, duplicate merkle roots across branches; per state several request lists (length 1..50, with duplicates) drawn from {every stored (root, own height / height+-1), non-longest roots at the tip height, unknown / tip / genesis roots at heights -1, 0, 1, tip-1..tip+excess+2, MaxInt32, MinInt32} for excess in {0,1,6,100,MaxInt32,2^31,2^40}; sent through POST /api/v1/chain/merkleroot/verify and Merkleroots.GetMerkleRootsConfirmations. evaluations = request lists; distinct = distinct (item class, expected verdict) pairs observed; non-trivial = all.")
+	r.Assume("merkle roots compared in canonical lower-case hex", "excess values 0, 1, 6, 100, MaxInt32, 2^31, 2^40", "reference model transcribes the statement")
 	r.Require("verdicts_CONFIRMED", 200)
 	r.Require("verdicts_UNABLE_TO_VERIFY", 50)
 	r.Require("verdicts_INVALID", 200)
